@@ -86,7 +86,7 @@ VERDICT = {
     # third round
     "C04-3": ("C04", "as it stood (new durable-state keys for the sqlite store)"),
     "C04-4": ("C04", "as it stood (the sub-agent independently re-made the slip of C04-2)"),
-    "C05-4": (None, "evaluation order of index / attribute assignment targets: needs containers and attributes, outside the int/bool/fixed-width fragment"),
+    "C05-4": ("C05", "list stores as ordered (slot, value) events added to the translation validation after the miss; replay = real build, list contents compared"),
     "C05-5": (None, "separate compilation mode (cross-group attribute defaults): build modes are outside the claim"),
     "C06-6": ("C06", "as it stood (same slip as C06-5)"),
     "C06-7": ("C06 K-glue", "call-wrapper ownership kernel (emitted C -> LLVM IR -> z3) added after the miss; replay = real build"),
